@@ -725,7 +725,7 @@ def gen_C02x(tier, seed, unit, nunits):
     return out
 
 PROPS = {
-    'C01': dict(lean_modules=['SfxProps.C01'], bins=['arith'], profiles=['chk', 'rel'], gen=gen_C01, thorough_all_fracs=True,
+    'C01': dict(lean_modules=['SfxProps.C01', 'SfxProps.C01Spec'], bins=['arith'], profiles=['chk', 'rel'], gen=gen_C01, thorough_all_fracs=True,
                 exhaustive_parts=['mul_overflow / div_overflow helpers: every operand pair of every 8-bit layout (18 x 65 536), both tiers, both profiles']),
     'C06': dict(lean_modules=['SfxProps.C06', 'SfxProps.C06Spec'], bins=['arith'], profiles=['chk', 'rel'], gen=gen_C06, thorough_all_fracs=True),
     'C07': dict(lean_modules=['SfxProps.C07', 'SfxProps.C07Forms', 'SfxProps.C07Spec'], bins=['arith'], profiles=['chk', 'rel'], gen=gen_C07x, thorough_all_fracs=True),
